@@ -9,7 +9,8 @@ import Tahoe.Config.Glue
     code point C)  S (U+017F)  I (U+0131)  o (anything else);  the empty string is the single token `-`.
     Output: ok:N | none | ValueError | KeyError ; abbr prints the string with ' ' shown as '_'.
       glue ro=B rs=V dd=B en=B mode=M old=V cut=V imm=B mut=B   the [storage] section through the client.py glue
-        B: t f bad ~(absent)   M: age cutoff other ~   V: ~(absent) -(empty) or SYM,SYM,…
+        B, M, V: ~(absent) -(empty) or SYM,SYM,… — every value as text; booleans go through classifyBool
+        (getboolean), the mode through classifyMode, the others through getConfig (strip) to their parser
         → started:<reserved>:<enabled>:<mode>:<override|None>:<cutoff|None>:<imm>:<mut>:<readonly> | ValueError | KeyError | MissingConfigEntry -/
 open Tahoe.Drv Tahoe.Config
 
@@ -53,20 +54,6 @@ def parseMode : String → Option Bool
   | "bin" => some false
   | _ => none
 
-def parseB : String → Option (Option BoolVal)
-  | "~" => some none
-  | "t" => some (some .t)
-  | "f" => some (some .f)
-  | "bad" => some (some .bad)
-  | _ => none
-
-def parseM : String → Option (Option ModeVal)
-  | "~" => some none
-  | "age" => some (some .age)
-  | "cutoff" => some (some .cutoff)
-  | "other" => some (some .other)
-  | _ => none
-
 def parseV (t : String) : Option (Option (List Sym)) :=
   if t == "~" then some none
   else if t == "-" then some (some [])
@@ -90,13 +77,13 @@ def showStart : Start → String
 
 def handleGlue : List String → Option String
   | [ro, rs, dd, en, mode, old, cut, imm, mu] => do
-    let c : StorageCfg := {
-      readonly := ← parseB (← kv "ro" ro), reservedSpace := ← parseV (← kv "rs" rs),
-      debugDiscard := ← parseB (← kv "dd" dd), expireEnabled := ← parseB (← kv "en" en),
-      expireMode := ← parseM (← kv "mode" mode), overrideLeaseDuration := ← parseV (← kv "old" old),
-      cutoffDate := ← parseV (← kv "cut" cut), expireImmutable := ← parseB (← kv "imm" imm),
-      expireMutable := ← parseB (← kv "mut" mu) }
-    pure (showStart (startStorage c))
+    let c : RawStorageCfg := {
+      readonly := ← parseV (← kv "ro" ro), reservedSpace := ← parseV (← kv "rs" rs),
+      debugDiscard := ← parseV (← kv "dd" dd), expireEnabled := ← parseV (← kv "en" en),
+      expireMode := ← parseV (← kv "mode" mode), overrideLeaseDuration := ← parseV (← kv "old" old),
+      cutoffDate := ← parseV (← kv "cut" cut), expireImmutable := ← parseV (← kv "imm" imm),
+      expireMutable := ← parseV (← kv "mut" mu) }
+    pure (showStart (startStorageRaw c))
   | _ => none
 
 def handle : List String → String
